@@ -168,7 +168,9 @@ pub fn judge_faulty(plan: &ClientPlan, run: &ClientRun, out: &mut RunOut) {
 
     // R2 abandon
     for f in &pt.fired {
-        if f.kind == FaultKind::WrongSerial {
+        if matches!(f.kind, FaultKind::WrongSerial | FaultKind::IdentityAbort(_) | FaultKind::StaleAfter(_)) {
+            // identity faults are judged with R1 above; unsolicited bytes behind a good frame are
+            // only seen by the client when it reads them (the hang they may cause is C10's)
             continue;
         }
         let k = f.conn;
@@ -208,6 +210,27 @@ pub fn judge_faulty(plan: &ClientPlan, run: &ClientRun, out: &mut RunOut) {
                 format!("r2/{kind}"),
                 format!("connection {k} saw {:?} during {:02x} {:02x} (event #{}) and was not dropped before the next connection opened / the call returned", f.kind, f.during.0, f.during.1, f.seq),
             );
+        }
+    }
+    // R2 for failed writes: once a write on connection k failed, the client never tries again on k
+    for k in 0..n_conn {
+        let errs: Vec<usize> = log.entries.iter().enumerate().filter(|(_, e)| e.conn == k && matches!(e.ev, Ev::WriteErr)).map(|(i, _)| i).collect();
+        if errs.len() > 1 {
+            out.fail(
+                "write_after_failure",
+                "r2/EpipeAfter",
+                format!("a write on connection {k} failed (event #{}), yet the client attempted another write on it (event #{})", errs[0], errs[1]),
+            );
+        }
+        // ... nor keeps reading from it
+        if let Some(first) = errs.first() {
+            if let Some((i, _)) = log.entries.iter().enumerate().find(|(i, e)| *i > *first && e.conn == k && matches!(e.ev, Ev::Read(_) | Ev::ReadWait | Ev::ReadEof | Ev::ReadErr)) {
+                out.fail(
+                    "read_after_failure",
+                    "r2/EpipeAfter",
+                    format!("a write on connection {k} failed (event #{first}), yet the client went on reading from it (event #{i})"),
+                );
+            }
         }
     }
     // R2b no stacking / writes on dead connections, as seen by the terminal
@@ -549,6 +572,30 @@ impl Check for C09 {
             }
         }));
         // non-final packets inside the pending query (F6: the query used to be given up mid-exchange)
+        // the terminal answers the identity request of the handshake with a well-formed abort:
+        // on the first connection, and on the replacement connection after a failure
+        fams.push(Family::new("identity_request_aborted", 5 * 4 * 3, true, {
+            let wl = wl.clone();
+            move |i, _| {
+                let mut p = ClientPlan::plain(wl[(i % 5) as usize].clone());
+                p.cfg.max_tx = 2;
+                let code = [0x64u8, 0x83, 0xff, 0x00][((i / 5) % 4) as usize];
+                match i / 20 {
+                    0 => p.faults = vec![FaultSpec { conn: 0, point: 4, kind: FaultKind::IdentityAbort(code) }],
+                    1 => {
+                        p.faults = vec![
+                            FaultSpec { conn: 0, point: 14, kind: FaultKind::Eof },
+                            FaultSpec { conn: 1, point: 4, kind: FaultKind::IdentityAbort(code) },
+                        ]
+                    }
+                    _ => {
+                        p.faults = (0..3).map(|c| FaultSpec { conn: c, point: 4, kind: FaultKind::IdentityAbort(code) }).collect();
+                    }
+                }
+                p.label = "identity_abort".into();
+                p
+            }
+        }));
         fams.push(Family::new("pending_query_with_intermediate_status", 4, true, |i, _| {
             let cleanup = CleanupSpec {
                 pending_pre: 1 + (i % 2) as u8,
@@ -678,7 +725,8 @@ pub fn random_faulty_plan(rng: &mut Rng) -> ClientPlan {
     let nf = 1 + rng.usize_below(4);
     let q = *rng.pick(&[10u64, 25, 60]);
     for _ in 0..nf {
-        let kind = match rng.below(12) {
+        let kind = match rng.below(13) {
+            12 => FaultKind::IdentityAbort(rng.next_u64() as u8),
             10 => FaultKind::EpipeAfter,
             11 => FaultKind::StallMid(rng.below(40) as u16),
             0 => FaultKind::Eof,
@@ -699,7 +747,7 @@ pub fn random_faulty_plan(rng: &mut Rng) -> ClientPlan {
             _ => FaultKind::WrongSerial,
         };
         let conn = if rng.pct(60) { 0 } else { rng.below(5) as u16 };
-        let point = if kind == FaultKind::WrongSerial { 4 } else { 1 + rng.below(q) as u16 };
+        let point = if matches!(kind, FaultKind::WrongSerial | FaultKind::IdentityAbort(_)) { 4 } else { 1 + rng.below(q) as u16 };
         p.faults.push(FaultSpec { conn, point, kind });
     }
     if rng.pct(25) {
